@@ -4915,7 +4915,9 @@ class Frame(ContainerOperand):
 
         if drop:
             blocks = TypeBlocks.from_blocks(
-                    self._blocks._drop_blocks(column_key=column_iloc))
+                    self._blocks._drop_blocks(column_key=column_iloc),
+                    shape_reference=(self._blocks._shape[0], 0), # if all columns are consumed
+                    )
             columns = self._columns._drop_iloc(column_iloc)
             own_data = True
             own_columns = True
@@ -4999,7 +5001,9 @@ class Frame(ContainerOperand):
 
         if drop:
             blocks = TypeBlocks.from_blocks(
-                    blocks_src._drop_blocks(column_key=column_iloc))
+                    blocks_src._drop_blocks(column_key=column_iloc),
+                    shape_reference=(blocks_src._shape[0], 0), # if all columns are consumed
+                    )
             columns = self._columns._drop_iloc(column_iloc)
             own_data = True
             own_columns = True
